@@ -158,6 +158,9 @@ INJECT = [
     ("native/column.rs", "src/mem_store/column.rs", "verif_nat_column", ("native",)),
     ("native/stringpack.rs", "src/stringpack.rs", "verif_nat_stringpack", ("native",)),
     ("native/operators.rs", "src/engine/operators/mod.rs", "verif_nat_operators", ("native",)),
+    ("native/partition.rs", "src/engine/operators/partition.rs", "verif_nat_partition", ("native",)),
+    ("native/merge_partitioned.rs", "src/engine/operators/merge_partitioned.rs", "verif_nat_merge_partitioned", ("native",)),
+    ("native/subpartition_op.rs", "src/engine/operators/subpartition.rs", "verif_nat_subpartition_op", ("native",)),
     ("native/inner_locustdb.rs", "src/scheduler/inner_locustdb.rs", "verif_nat_inner_locustdb", ("native",)),
 ]
 
